@@ -95,6 +95,7 @@ type Ctx struct {
 	lfWorld    string
 	feasChecks int
 	known      map[string]bool // every name introduced so far
+	loopClean  map[string]bool // loops whose body writes no world state (discovered, then used on the next pass)
 	writes     []writeRec      // every store to a heap variable, in script order
 	facts      map[string]bool // goals already assumed or demanded (deduplication of safety checks)
 	curPos     token.Pos
@@ -123,7 +124,7 @@ type PanicExit struct {
 
 func newCtx(p *Program, db *SpecDB, fn string, loopMods map[string]map[string]*modInfo) *Ctx {
 	c := &Ctx{P: p, DB: db, names: map[string]int{}, heaps: map[string]*heapInfo{}, subs: map[string]bool{}, subK: map[string]int{}, tags: map[string]int{}, tagTyp: map[int]types.Type{},
-		strs: map[string]int{}, notes: map[string]bool{}, fn: fn, ufs: map[string]bool{}, fresh: map[string]bool{}, loopMods: loopMods, inlined: map[string]bool{}, gaps: map[string]bool{}, facts: map[string]bool{}, known: map[string]bool{}}
+		strs: map[string]int{}, notes: map[string]bool{}, fn: fn, ufs: map[string]bool{}, fresh: map[string]bool{}, loopMods: loopMods, inlined: map[string]bool{}, gaps: map[string]bool{}, facts: map[string]bool{}, known: map[string]bool{}, loopClean: map[string]bool{}}
 	c.emit("(declare-fun birth (Int) Int)")
 	c.emit("(declare-fun kind (Int) Int)")
 	c.emit("(declare-fun elem (Int (_ BitVec 64)) Int)")
